@@ -186,10 +186,13 @@ class Replayer:
                 elif a == "construct":
                     mods[e["m"]] = POOL[e["c"]]["make"]()
                     dt = "f64" if torch.get_default_dtype() == torch.float64 else "f32"
+                    # built = the coarsest precision the buffers have passed through (bits lost in float32 stay lost)
                     modinfo[e["m"]] = dict(c=e["c"], built=dt, dtype=dt, fp=fp(list(mods[e["m"]].state_dict().values())))
                 elif a == "to":
                     mods[e["m"]] = mods[e["m"]].to(TD[e["d"]])
                     modinfo[e["m"]]["dtype"] = e["d"]
+                    if e["d"] == "f32":
+                        modinfo[e["m"]]["built"] = "f32"
                     modinfo[e["m"]]["fp"] = fp(list(mods[e["m"]].state_dict().values()))
                 elif a == "clone":
                     import copy
